@@ -1,0 +1,99 @@
+//go:build verif
+
+// Contracts for the CTE writer kernel and the CTE marshal/unmarshal/decode wrappers (package cte,
+// second file), read as text by the verification-condition generator in /verif. No code.
+//
+// The three functions that call the destination writer turn its error into a panic (xensures
+// wfailed) and return normally only if the write succeeded (ensures !wfailed); every other CTE
+// writer function writes through them (structural checks cte-writer-calls and
+// cte-stringwriter-calls). The wrappers have no exceptional postcondition: nothing may escape as
+// a panic (C07); a failed writer or reader always ends in err != nil (C29).
+
+package cte
+
+//@ spec CteWriterOK(w *Writer) bool = w.writer != nil && w.stringWriter != nil
+
+//@ func (*Writer).writeBytes
+//@   requires _this.writer != nil && !wfailed
+//@   modifies out, outLen, wfailed
+//@   ensures !wfailed && outLen == old(outLen) + uint64(len(b))
+//@   ensures forall i uint64 :: i < uint64(len(b)) ==> out[old(outLen)+i] == b[i]
+//@   xensures wfailed
+
+//@ func (*Writer).FlushBufferNotLF
+//@   requires _this.writer != nil && !wfailed && 0 <= count && count <= cap(_this.Buffer)
+//@   modifies out, outLen, wfailed
+//@   ensures !wfailed && outLen == old(outLen) + uint64(count)
+//@   xensures wfailed
+
+//@ func (*Writer).ExpandBuffer
+//@   requires 0 <= size && size <= 0x1000000000
+//@   modifies _this.Buffer, alloc
+//@   ensures len(_this.Buffer) >= size
+
+// The adapter used when the destination is not an io.StringWriter: it cannot return an error, so
+// a failing destination must surface as a panic, never as a silent success.
+//@ func (*StringWriterAdapter).WriteString
+//@   requires _this.writer != nil && _this.writer.writer != nil && !wfailed && len(str) <= 0x1000000000
+//@   modifies out, outLen, wfailed, _this.writer.Buffer, memall(uint8), alloc
+//@   ensures !wfailed && err == nil && n == len(str) && outLen == old(outLen) + uint64(len(str))
+//@   xensures wfailed
+
+//@ func (*Writer).WriteStringNotLF
+//@   requires _this.stringWriter != nil && !wfailed
+//@   modifies out, outLen, wfailed, _this.Column, _this.Buffer, memall(uint8), alloc
+//@   ensures !wfailed
+//@   xensures wfailed
+
+//@ func (*Writer).WriteStringPossibleLF
+//@   requires _this.stringWriter != nil && !wfailed
+//@   modifies out, outLen, wfailed, _this.Column, _this.Buffer, memall(uint8), alloc
+//@   ensures !wfailed
+//@   xensures wfailed
+//@   loop 0 invariant i >= 0 - 1 && i < len(str)
+//@   loop 0 decreases i + 1
+
+//@ func (*Writer).SetWriter
+//@   requires writer != nil
+//@   modifies _this.writer, _this.stringWriter
+//@   ensures _this.writer == writer && _this.stringWriter != nil
+
+//@ func (*EncoderEventReceiver).PrepareToEncode
+//@   requires writer != nil
+//@   modifies _this.context.Stream.writer, _this.context.Stream.stringWriter
+//@   ensures _this.context.Stream.writer == writer && _this.context.Stream.stringWriter != nil
+
+//@ func (*Marshaler).Marshal
+//@   requires _this.config != nil && !_this.config.Debug.PassThroughPanics && writer != nil && !wfailed
+//@   modifies all
+//@   ensures err == nil ==> !wfailed
+
+//@ func (*Marshaler).MarshalToDocument
+//@   requires _this.config != nil && !_this.config.Debug.PassThroughPanics && !wfailed
+//@   modifies all
+//@   ensures err == nil ==> !wfailed
+
+// The whole input is read first (io.Copy); a read failure is returned as the error.
+//@ func (*Decoder).Decode
+//@   requires _this.config != nil && !_this.config.Debug.PassThroughPanics && reader != nil && eventReceiver != nil && pos <= inLen
+//@   modifies all
+//@   ensures err == nil ==> !rfailed
+
+//@ func (*Decoder).DecodeDocument
+//@   requires _this.config != nil && !_this.config.Debug.PassThroughPanics && eventReceiver != nil
+//@   modifies all
+
+//@ func (*Unmarshaler).Unmarshal
+//@   requires _this.config != nil && !_this.config.Debug.PassThroughPanics && _this.decoder.config == _this.config
+//@   requires reader != nil && pos <= inLen && !rfailed
+//@   modifies all
+//@   ensures err == nil ==> !rfailed
+
+//@ func (*Unmarshaler).UnmarshalFromDocument
+//@   requires _this.config != nil && !_this.config.Debug.PassThroughPanics && _this.decoder.config == _this.config
+//@   modifies all
+//@   ensures err == nil ==> !rfailed
+
+//@ structural cte-writer-calls: only_callers (io.Writer).Write in cte: cte.(*Writer).writeBytes
+//@ structural cte-stringwriter-calls: only_callers (io.StringWriter).WriteString in cte: cte.(*Writer).WriteStringNotLF cte.(*Writer).WriteStringPossibleLF
+//@ structural cte-reader-calls: only_callers (io.Reader).Read in cte:
